@@ -258,7 +258,6 @@ def clause_c(c: Check):
 # ---------------------------------------------------------------- d e
 def clause_de(c: Check):
     ix, fo = c.ix, c.fo
-    mod = ix.module(RR)
     reporters = fo.fold_path(RR + ':RESULT_REPORTERS')
     c.require(isinstance(reporters, dict), 'C02-e: RESULT_REPORTERS not folded')
     ro = fo.enum_members(ix.cls('exactly_lib.processing.standalone.settings:ReportingOption'))
@@ -266,13 +265,11 @@ def clause_de(c: Check):
     c.expect(set(reporters) - {'__duplicate_keys__'} == set(ro.values()), 'C02-e', 'RESULT_REPORTERS/total',
              'reporting options without reporter: %s' % sorted(m.name for m in set(ro.values()) - set(reporters)),
              var.loc())
-    complete = fo.fold_path(RR + ':_FULL_EXECUTION__COMPLETE')
     fers = fo.enum_members(ix.cls(FR + ':FullExeResultStatus'))
+    aet = fo.enum_members(ix.cls(TCP + ':AccessErrorType'))
     status = fo.enum_members(ix.cls(TCP + ':Status'))
     res_cls = ix.cls(TCP + ':Result')
     full_cls = ix.cls(FR + ':FullExeResult')
-    pof = fo.enum_members(ix.cls('exactly_lib.util.process_execution.process_output_files:ProcOutputFile'))
-    from_result = ix.func(EV + ':from_result')
     prr_cls = ix.cls(PRR + ':ProcessResultReporterWithInitialExitValueOutput')
     base_cls = ix.cls(RR + ':TestCaseResultReporter')
 
@@ -281,18 +278,25 @@ def clause_de(c: Check):
 
     class H(Hooks):
         def inline(self, fd, st):
-            if fd == from_result:
-                return False
+            if fd.module.name == EV:
+                return True
             f = fd
             while f is not None:
                 if f.cls is not None:
-                    return f.cls.module.name in (RR, PRR, FR, 'exactly_lib.execution.result')
+                    return f.cls.module.name in (RR, PRR, FR, 'exactly_lib.execution.result',
+                                                 'exactly_lib.common.exit_value')
                 f = f.parent
             return fd.module.name in (RR, PRR) and fd.cls is None
 
         def inline_class(self, cd, st):
             return cd == prr_cls
 
+    # which (verdict, action outcome known) combinations can occur: the action's outcome exists when the act phase
+    # completed; PASS/FAIL/XPASS/XFAIL imply it, SKIPPED / SYNTAX_ERROR / VALIDATION_ERROR precede it, hard and
+    # internal errors may come before or after it
+    OUTCOME = {'PASS': [True], 'FAIL': [True], 'XPASS': [True], 'XFAIL': [True], 'SKIPPED': [False],
+               'SYNTAX_ERROR': [False], 'VALIDATION_ERROR': [False, True], 'HARD_ERROR': [False, True],
+               'INTERNAL_ERROR': [False, True]}
     n_cases = 0
     for oname, opt in sorted(ro.items()):
         ref = reporters.get(opt)
@@ -301,7 +305,6 @@ def clause_de(c: Check):
         rcls = ref.d
         mode = MODE[oname]
         c.require(ix.is_subclass(rcls, base_cls), 'C02-e: %s is not a TestCaseResultReporter' % rcls.key)
-        # the two mode flags
         dep = ix.class_member(rcls, 'depends_on_result_in_sandbox')
         rets = [fo.fold(dep.module, dep, n.value) for n in walk_own(dep.node) if isinstance(n, ast.Return)]
         c.expect(rets == [mode == 'keep'], 'C02-e', '%s/depends_on_result_in_sandbox' % oname,
@@ -317,43 +320,46 @@ def clause_de(c: Check):
             c.expect(ok, 'C02-e', '%s/execute_atc_and_skip_assertions' % oname,
                      'mode %s skips the assertions' % mode, atc.loc())
         report = ix.class_member(rcls, 'report')
-        # enumerate processing results
         cases = []
         for vname, vm in sorted(fers.items()):
             for has_sds in (True, False):
-                cases.append(('EXECUTED/%s/%s' % (vname, 'sds' if has_sds else 'no-sds'), 'EXECUTED', vm, has_sds))
-        cases.append(('ACCESS_ERROR', 'ACCESS_ERROR', None, False))
-        cases.append(('INTERNAL_ERROR', 'INTERNAL_ERROR', None, False))
-        for label, st_name, verdict, has_sds in cases:
+                for has_outcome in OUTCOME[vname]:
+                    if has_outcome and not has_sds:
+                        continue  # the action runs inside the sandbox
+                    cases.append(('EXECUTED/%s/%s/%s' % (vname, 'sds' if has_sds else 'no-sds',
+                                                         'act-done' if has_outcome else 'act-not-done'),
+                                  'EXECUTED', vm, has_sds, has_outcome, None))
+        for an, am in sorted(aet.items()):
+            cases.append(('ACCESS_ERROR/' + an, 'ACCESS_ERROR', None, False, False, am))
+        cases.append(('INTERNAL_ERROR', 'INTERNAL_ERROR', None, False, False, None))
+        for label, st_name, verdict, has_sds, has_outcome, access in cases:
             n_cases += 1
             it = Interp(ix, fo, H())
             state = State()
             full_val = NONE
             if st_name == 'EXECUTED':
                 sds = Sym('sds', nullness=False, origin=('sds',)) if has_sds else NONE
+                outcome = Sym('atc_outcome', nullness=False, origin=('atc',)) if has_outcome else NONE
                 objs = it.instantiate(full_cls, state, {'status': K(verdict), 'sds': sds,
-                                                        'action_to_check_outcome': Sym('atc_outcome', origin=('atc',)),
+                                                        'action_to_check_outcome': outcome,
                                                         'failure_info': Sym('failure_info')})
                 c.require(len(objs) == 1, 'C02-e: FullExeResult constructor forks')
                 full_val, state = objs[0]
             rec = Record(res_cls, {'status': status[st_name], 'error_info': Sym('error_info'),
-                                   'error_type': Sym('error_type'), 'execution_result': full_val})
+                                   'error_type': access, 'execution_result': full_val})
             robjs = it.instantiate(rcls, state, {})
             c.require(len(robjs) == 1, 'C02-e: reporter constructor forks')
             robj, state = robjs[0]
             state.trace = []
             paths = it.run_function(report, args={report.positional_params()[1].arg: K(rec)}, st=state, recv=robj)
             key = '%s/report/%s' % (oname, label)
-            if len(paths) != 1:
-                # undecided branch inside the reporter: all paths must agree
-                pass
+            exp = _expected(mode, st_name, verdict, has_sds, access)
             for p in paths:
-                obs = _observe(c, p, from_result)
-                exp = _expected(mode, st_name, verdict, has_sds, complete)
+                obs = _observe(c, p)
                 c.expect(obs == exp, 'C02-e', key,
                          'mode %s, result %s: observed %s, documented %s' % (mode, label, obs, exp), report.loc(),
                          detail=str(obs))
-                if label.startswith('EXECUTED/PASS/sds') or label == 'ACCESS_ERROR':
+                if label.startswith('EXECUTED/PASS/sds') or label.startswith('ACCESS_ERROR/SYNTAX'):
                     c.sample({'mode': mode, 'result': label, 'observed': obs})
     c.floor('C02-e', 'reporter x result cases', n_cases, 60)
 
@@ -384,46 +390,40 @@ def clause_de(c: Check):
             c.expect(bool(ok), 'C02-d', cls_name + '.report',
                      'identifier printed (%s) and exit code returned (%s) are not attributes of the same exit value'
                      % ([util.describe(i) for i in idents], util.describe(ret)), rep.loc())
+    # ExitValue equality must not be used to classify verdicts: verdicts share exit codes (PASS/SKIPPED, XFAIL/XPASS,
+    # SYNTAX_ERROR/VALIDATION_ERROR) - informational, decided by the table above
 
 
-def _observe(c: Check, p, from_result) -> dict:
-    """what a reporter path does: identifier stream, other stdout writes, returned value"""
-    ix = c.ix
-    ident_streams = []
+def _observe(c: Check, p) -> dict:
+    """what a reporter path does: (stream, identifier) writes, other stdout writes, returned value"""
+    ident_writes = []
     stdout_writes = []
-    ev_sources = set()
+    none_deref = [e for e in p.trace if e.kind == 'none-deref']
     for e in p.calls():
         node = e.node
-        if e.data['callee'] == from_result:
-            continue
         if isinstance(node.func, ast.Attribute):
             if node.func.attr == 'write_colored_line':
-                recv = e.data.get('recv')
-                stream = _stream_of_printer(recv)
+                stream = _stream_of_printer(e.data.get('recv'))
                 arg = e.data['args'][0] if e.data['args'] else None
-                base, chain = util.attr_chain(arg)
-                src = util.origin_call_key(util.root_sym(base))
-                what = 'identifier' if chain[-1:] == ('exit_identifier',) and src == from_result.key else \
-                    'other:' + util.describe(arg)
-                ident_streams.append((stream, what))
-            elif node.func.attr in ('write_line', 'write', 'write_colored_line', 'write_lines'):
-                recv = e.data.get('recv')
-                stream = _stream_of_printer(recv)
+                ident_writes.append((stream, arg.v if isinstance(arg, K) else util.describe(arg)))
+            elif node.func.attr in ('write_line', 'write', 'write_lines'):
+                stream = _stream_of_printer(e.data.get('recv'))
                 if stream in ('STDOUT', 'out'):
                     arg = e.data['args'][0] if e.data['args'] else None
                     stdout_writes.append(_describe_out_arg(arg))
     if p.kind != 'return':
-        ret = 'raises'
+        ret = 'raises ' + util.describe(p.val)
+    elif none_deref:
+        ret = 'uses an attribute of None (%s)' % none_deref[0].data
+    elif isinstance(p.val, K):
+        ret = p.val.v
     else:
         base, chain = util.attr_chain(p.val)
-        src = util.origin_call_key(util.root_sym(base)) if isinstance(base, Sym) else None
-        if chain == ('exit_code',) and src == from_result.key:
-            ret = 'exit_code of from_result(result)'
-        elif chain and chain[-1] == 'exit_code' and isinstance(base, Sym) and util.root_sym(base).tag == 'atc_outcome':
+        if chain and chain[-1] == 'exit_code' and isinstance(base, Sym) and util.root_sym(base).tag == 'atc_outcome':
             ret = 'exit code of the action to check'
         else:
             ret = util.describe(p.val)
-    return {'identifier': sorted(set(ident_streams)), 'stdout': stdout_writes, 'returns': ret}
+    return {'identifier': sorted(set(ident_writes), key=str), 'stdout': stdout_writes, 'returns': ret}
 
 
 def _stream_of_printer(recv) -> Optional[str]:
@@ -450,9 +450,15 @@ def _describe_out_arg(arg) -> str:
     return util.describe(arg)
 
 
-def _expected(mode, st_name, verdict, has_sds, complete) -> dict:
+def _expected(mode, st_name, verdict, has_sds, access) -> dict:
+    if st_name == 'EXECUTED':
+        ident, code = verdict.name, DOCUMENTED_EXIT[verdict.name]
+    elif st_name == 'ACCESS_ERROR':
+        ident, code = access.name, DOCUMENTED_ACCESS_ERROR_EXIT
+    else:
+        ident, code = 'INTERNAL_ERROR', DOCUMENTED_EXIT['INTERNAL_ERROR']
     ident_stream = 'STDOUT' if mode == 'normal' else 'STDERR'
-    exp = {'identifier': [(ident_stream, 'identifier')], 'stdout': [], 'returns': 'exit_code of from_result(result)'}
+    exp = {'identifier': [(ident_stream, ident)], 'stdout': [], 'returns': code}
     if mode == 'keep' and st_name == 'EXECUTED' and has_sds:
         exp['stdout'] = ['sandbox root dir']
     if mode == 'act' and st_name == 'EXECUTED' and verdict.name in ('PASS', 'FAIL', 'XPASS', 'XFAIL'):
